@@ -396,6 +396,112 @@ def special_menu(i, s, names):
     return out
 
 
+# ---------------------------------------------------------------- family F: sub-path IGNOREs
+
+def name_patterns(s):
+    """All equality patterns of the s chain-directory names (restricted-growth strings):
+    (0,1,2) = all distinct, (0,0,1) = first two levels carry the same name, ..."""
+    out = [()]
+    for _ in range(s):
+        out = [p + (k,) for p in out for k in range((max(p) + 1 if p else 0) + 1)]
+    return out
+
+
+def pattern_names(base, pat):
+    """Chain names for an equality pattern; slot s+1 (a child of the start) stays a fresh name."""
+    s = len(pat)
+    return [None] + [base[1 + k] for k in pat] + [base[s + 1]]
+
+
+def subpaths(names, s):
+    """Every contiguous run of components of the start path: [(label, 'ca/../cc')], 1 <= a <= c <= s,
+    in a fixed order; runs spelling the same string (repeated names) are listed once."""
+    out, seen = [], set()
+    for a in range(1, s + 1):
+        for c in range(a, s + 1):
+            p = '/'.join(names[a:c + 1])
+            if p not in seen:
+                seen.add(p)
+                out.append((f'sub{a}-{c}', p, c - a + 1))
+    return out
+
+
+# per tier and start depth: (name patterns, gz IGNORE menu, allow_compressed values)
+#   gz menu: 'all' = every sub-path, 'single' = one-component sub-paths, 'none' = gz without IGNORE only,
+#   None = no compressed option at all
+def f_config(tier, s):
+    if tier == 'quick':
+        if s <= 2:
+            return name_patterns(s), 'all', (False, True)
+        if s == 3:
+            return [tuple(range(s))], 'none', (False, True)
+        return None
+    if s <= 2:
+        return name_patterns(s), 'all', (False, True)
+    if s == 3:
+        return name_patterns(s), 'single', (False, True)
+    if s == 4:
+        return [tuple(range(s))], None, (False,)
+    return None
+
+
+def subpath_menu(tier, i, s, names):
+    """Family F: options of level i (0..s, the start level included): no Manifest, a Manifest
+    without any IGNORE, a Manifest IGNOREing one sub-path of the start path - whichever, whether
+    or not it means anything relative to this level.  The reference decides what it means."""
+    key = ('F', tier, i, s, tuple(names[1:s + 2]))
+    if key in _MENU_CACHE:
+        return _MENU_CACHE[key]
+    _pats, gz, _comps = f_config(tier, s)
+    subs = subpaths(names, s)
+    out = [NONE, Lv('plain', 'none', [BENIGN])]
+    out += [Lv('plain', lab, [ign(p)]) for lab, p, _n in subs]
+    if gz is not None:
+        out.append(Lv('gz', 'none', [BENIGN]))
+        out += [Lv('gz', lab, [ign(p)]) for lab, p, n in subs
+                if gz == 'all' or (gz == 'single' and n == 1)]
+    _MENU_CACHE[key] = out
+    return out
+
+
+def count_subpath(chain, ref, comp, c):
+    """Reference-side census of family F (what the family is there for)."""
+    c['F_cases'] += 1
+    if ref.verdict != 'must':
+        return
+    c['F_cls_' + ref.cls] += 1
+    s, names, lvs = chain.s, chain.names, chain.lvs
+    cands = set(ref.cands)
+    foreign_to_level = to_ignoreless = names_own = False
+    for j in ref.cands:
+        for _fn, entries in lvs[j].visible(comp):
+            for e in entries:
+                if e[0] != 'IGNORE':
+                    continue
+                if j >= 1 and e[1].split('/')[0] == names[j]:
+                    names_own = True
+                # an IGNORE that says nothing about the start relative to its own Manifest, but
+                # would cover the start if it stood in another Manifest the walk passes
+                for i in cands:
+                    if i != j and i < s and covers(e[1], names[i + 1:s + 1]):
+                        foreign_to_level = True
+                        if not lvs[i].has_ignore:
+                            to_ignoreless = True
+    if to_ignoreless:
+        c['F_passed_ignore_covering_relative_to_ignoreless_level'] += 1
+    if foreign_to_level:
+        c['F_passed_ignore_covering_relative_to_other_level'] += 1
+    if names_own:
+        c['F_passed_ignore_naming_own_directory'] += 1
+    if ref.cands and ref.cands[0] == s and lvs[s].has_ignore:
+        c['F_ignore_in_start_directory'] += 1
+    if ref.stop is not None and ref.stop[0] == 'ignore':
+        rel = names[ref.stop[1] + 1:s + 1]
+        if any(e[0] == 'IGNORE' and 1 <= len(e[1].split('/')) < len(rel)
+               for _fn, en in lvs[ref.stop[1]].visible(comp) for e in en):
+            c['F_stopped_by_ancestor_ignore'] += 1
+
+
 # ---------------------------------------------------------------- reference model
 
 def covers(ignore_path, relcomps):
@@ -692,16 +798,22 @@ def check_one(chain, b, xdev, comp, form='abs', group='chain', stats=None, virtu
             stats.compared += 1
         else:
             stats.dontcare[ref.reason or 'foreign Manifest with an undecidable alternative'] += 1
-        if viol:
-            stats.violation(viol['sig'], viol['case'], viol['message'])
+        # the violation itself is recorded by run_leaf AFTER the case digest, so that a shard that
+        # stops on too many violations still has one digest per call
     return viol, ref
 
 
 # ---------------------------------------------------------------- enumeration
 
-def flagset(s, fam):
+def flagset(s, fam, comps=(False, True)):
     out = []
     forms = ('abs',)
+    if fam == 'F':
+        # no boundary, or a boundary above any level with crossing disallowed
+        for comp in comps:
+            out.append((None, True, comp, 'abs'))
+            out += [(b, False, comp, 'abs') for b in range(1, s + 1)]
+        return out
     for comp in (False, True):
         if fam == 'D':
             out += [(None, True, comp, 'abs'), (None, False, comp, 'abs')]
@@ -721,22 +833,26 @@ def flagset(s, fam):
 
 
 SAMPLE_CLASSES = ('stop-ignore', 'outermost', 'stop-xdev', 'none/ignore', 'single', 'none/xdev', 'dontcare')
-GROUP = {'A': 'chain', 'B': 'chain', 'C': 'chain', 'E': 'forms', 'D': 'mlink'}
+GROUP = {'A': 'chain', 'B': 'chain', 'C': 'chain', 'E': 'forms', 'D': 'mlink', 'F': 'subpath'}
 
 
-def run_leaf(chain, fam, stats, extra_key=()):
+def run_leaf(chain, fam, stats, extra_key=(), comps=(False, True)):
     s, lvs = chain.s, chain.lvs
     key = repr((fam, s) + tuple((lv.kind, lv.label, lv.foreign) for lv in lvs) + tuple(extra_key))
     n_present = sum(1 for lv in lvs if lv.present())
     discr = (n_present >= 2 or any(lv.has_ignore for lv in lvs)
              or any(lv.cfmt for lv in lvs) or any(lv.foreign for lv in lvs))
     refs = {}
-    for (b, xdev, comp, form) in flagset(s, fam):
+    for (b, xdev, comp, form) in flagset(s, fam, comps):
         viol, ref = check_one(chain, b, xdev, comp, form, GROUP[fam], stats)
         definite = ref.verdict == 'must'
         stats.case((key, b, xdev, comp, form),
                    nontrivial=definite and n_present >= 1 and (discr or b is not None))
+        if viol:
+            stats.violation(viol['sig'], viol['case'], viol['message'])
         refs[(b, xdev, comp, form)] = ref
+        if fam == 'F':
+            count_subpath(chain, ref, comp, stats.counters)
         c = stats.counters
         if definite:
             if ref.result is None:
@@ -774,6 +890,8 @@ def run_leaf(chain, fam, stats, extra_key=()):
 
 def menus_for(fam, tier, s, names, special_at=None):
     out = []
+    if fam == 'F':
+        return [subpath_menu(tier, i, s, names) for i in range(s + 1)]
     for i in range(s + 1):
         if special_at is not None and i == special_at:
             out.append(special_menu(i, s, names))
@@ -782,13 +900,13 @@ def menus_for(fam, tier, s, names, special_at=None):
     return out
 
 
-def dfs(chain, menus, fixed, fam, stats, extra_key=()):
+def dfs(chain, menus, fixed, fam, stats, extra_key=(), comps=(False, True)):
     """Assign levels 0..s in order; ``fixed`` = option indices of the first levels."""
     s = chain.s
 
     def rec(i):
         if i > s:
-            run_leaf(chain, fam, stats, extra_key)
+            run_leaf(chain, fam, stats, extra_key, comps)
             stats.counters['chains'] += 1
             stats.counters[f'chains_{fam}_s{s}'] += 1
             return
@@ -802,7 +920,8 @@ def dfs(chain, menus, fixed, fam, stats, extra_key=()):
     rec(0)
 
 
-MAX_S = {'quick': {'A': 4, 'B': 3, 'E': 3, 'D': 3}, 'thorough': {'A': 4, 'B': 4, 'C': 6, 'E': 3, 'D': 3}}
+MAX_S = {'quick': {'A': 4, 'B': 3, 'E': 3, 'D': 3, 'F': 3},
+         'thorough': {'A': 4, 'B': 4, 'C': 6, 'E': 3, 'D': 3, 'F': 4}}
 LEAVES_PER_SHARD = {'quick': 400, 'thorough': 1500}
 
 
@@ -831,13 +950,20 @@ def shards(tier, seed):
     names = names_for(0, 8)           # the *space* does not depend on the seed
     target = LEAVES_PER_SHARD[tier]
     for fam, smax in MAX_S[tier].items():
-        smin = 5 if fam == 'C' else 0
+        smin = 5 if fam == 'C' else 1 if fam == 'F' else 0
         for s in range(smin, smax + 1):
             specials = [None]
+            comps = (False, True)
             if fam == 'B':
                 specials = list(range(s + 1))
+            if fam == 'F':
+                # the third slot of the spec carries the name-equality pattern instead
+                specials, _gz, comps = f_config(tier, s)
             for sp in specials:
-                menus = menus_for(fam, tier, s, names, sp)
+                if fam == 'F':
+                    menus = menus_for(fam, tier, s, pattern_names(names, sp))
+                else:
+                    menus = menus_for(fam, tier, s, names, sp)
                 sizes = [len(m) for m in menus]
                 leaves = 1
                 for n in sizes:
@@ -847,7 +973,7 @@ def shards(tier, seed):
                 for n in sizes[:k]:
                     cost //= n
                 for p in _prefixes(sizes, k):
-                    out.append((fam, s, sp, p, cost * len(flagset(s, fam))))
+                    out.append((fam, s, sp, p, cost * len(flagset(s, fam, comps))))
     out.sort(key=lambda x: -x[4])
     return [x[:4] for x in out]
 
@@ -878,18 +1004,28 @@ def run_shard(spec, tier, seed, scratch):
                 stats.notes.append('family mlink skipped: tempfile.gettempdir() is on the same device as the scratch')
                 stats.counters['mlink_skipped'] += 1
                 return stats
-        chain = Chain(root, names, s, other)
-        chain.want = SAMPLE_CLASSES[(s + sum(prefix) + (sp or 0)) % len(SAMPLE_CLASSES)]
-        menus = menus_for(fam, tier, s, names, sp)
-        dfs(chain, menus, prefix, fam, stats, extra_key=(('special', sp),) if fam == 'B' else ())
+        if fam == 'F':
+            names = pattern_names(names, sp)
+            comps = f_config(tier, s)[2]
+            chain = Chain(root, names, s, other)
+            chain.want = SAMPLE_CLASSES[(s + sum(prefix) + sum(sp)) % 2]     # stop-ignore / outermost
+            dfs(chain, menus_for(fam, tier, s, names), prefix, fam, stats,
+                extra_key=(('pattern', sp),), comps=comps)
+        else:
+            chain = Chain(root, names, s, other)
+            chain.want = SAMPLE_CLASSES[(s + sum(prefix) + (sp or 0)) % len(SAMPLE_CLASSES)]
+            menus = menus_for(fam, tier, s, names, sp)
+            dfs(chain, menus, prefix, fam, stats, extra_key=(('special', sp),) if fam == 'B' else ())
     finally:
+        # also reached when the shard stops on too many violations (the partial stats travel
+        # with the exception), so the DevMap census is not lost for such a shard
         PROXY.inner = None
+        stats.counters['devmap_stat_calls'] += PROXY.calls
+        PROXY.calls = 0
         if other is not None:
             shutil.rmtree(other, ignore_errors=True)
     assert_no_ancestor_manifest(root)
     stats.counters['family_' + fam] += 1
-    stats.counters['devmap_stat_calls'] += PROXY.calls
-    PROXY.calls = 0
     return stats
 
 
@@ -928,9 +1064,37 @@ def replay(case, scratch):
 
 # ---------------------------------------------------------------- self checks
 
+F_NEED = {
+    'F_cases': 'a sub-path case',
+    'F_passed_ignore_covering_relative_to_other_level':
+        'walk passes a Manifest whose IGNORE is meaningless there but would cover the start in another '
+        'Manifest it also passes',
+    'F_passed_ignore_covering_relative_to_ignoreless_level':
+        '... where that other Manifest has no IGNORE line at all',
+    'F_passed_ignore_naming_own_directory': 'walk passes a Manifest IGNOREing a child called like its own directory',
+    'F_ignore_in_start_directory': 'Manifest with an IGNORE line in the start directory itself is a candidate',
+    'F_stopped_by_ancestor_ignore': 'walk stopped by an IGNORE naming a proper ancestor of the start',
+    'F_cls_outermost': 'sub-path case with reference class outermost',
+    'F_cls_stop-ignore': 'sub-path case with reference class stop-ignore',
+    'F_cls_none/ignore': 'sub-path case with reference class none/ignore',
+    'F_cls_stop-xdev': 'sub-path case with reference class stop-xdev',
+}
+
+
 def finish(total, tier):
     errs = []
     c = total.counters
+    if total.capped:
+        # The exploration was cut short (a shard stops after Stats.ABORT_AFTER violations, the runner
+        # stops after 2 x jobs such shards, or the wall cap hit): the census below would be taken over
+        # a fragment of the space and says nothing about the harness.  The runner prints the
+        # violations, or - when the cap hit without any - its own "NOT decided" error.
+        total.notes.append('vacuity self-checks skipped: exploration was cut short '
+                           f'({total.evaluations} cases run)')
+        return errs
+    for k, what in F_NEED.items():
+        if not c.get(k):
+            errs.append(f'vacuity (family F, sub-path IGNOREs): never seen: {what}')
     need = {
         'ref_none': 'reference result None',
         'ref_innermost_of_many': 'reference returns the innermost of several Manifests (walk stopped)',
@@ -970,4 +1134,5 @@ def extra_evidence(total, tier):
         'chains_by_family_and_start_depth': {k[len('chains_'):]: v for k, v in sorted(c.items())
                                               if k.startswith('chains_')},
         'max_start_depth': max(MAX_S[tier].values()),
+        'subpath_family_F': {k: v for k, v in sorted(c.items()) if k.startswith('F_')},
     }
